@@ -18,7 +18,9 @@ CRN on/off (BasePop registers simulants under key columns), births at arbitrary 
 pipelines with rate / union post-processing and a·v+b modifiers (Pipes, RiskEffect), scalar / categorical / binned lookup
 tables (Tables), adding and concatenating observers with mapper / binned stratifications (Obs), per-simulant step
 modifiers and snoozing (StepMod, Snoozer), and a component that keeps the RESIDUAL_CHOICE sentinel in its own state
-(ResidualUser: regression for finding F-M).  Optional traits feed the framework the unusual-but-legal inputs real models
+(ResidualUser: regression for finding F-M), and a component that keeps per-simulant state in plain attributes filled only by
+a column-less initializer (PrivateState).  Births can be scheduled at EVERY step, so that simulants are created after any
+interruption point.  Optional traits feed the framework the unusual-but-legal inputs real models
 produce: NaN / inf / zero / above-the-clip rates and NaN probabilities for some simulants (Mortality through
 stream.filter_for_rate / filter_for_probability / plain exp; Condition's incidence transition), a NaN cell in a lookup
 table, NaN pipeline values (unknown exposure), calls with an empty index.  heap_churn() fills freed numpy buffers with
@@ -200,10 +202,12 @@ class BasePop(Component):
 class Births(Component):
     """Creates `schedule[str(step)]` simulants during the time_step event of that step (own step counter)."""
 
-    def __init__(self, schedule=None, phase=1):
+    def __init__(self, schedule=None, phase=1, every=0):
         super().__init__()
         self.schedule = dict(schedule or {})
         self.phase = phase
+        self.every = every                      # in addition: `every` simulants at EVERY step (so that whatever the
+                                                # interruption point of a backup, somebody is born after it)
         self.count = 0
         self.actions = []
 
@@ -212,7 +216,7 @@ class Births(Component):
 
     def _birth(self, ev):
         if ev == self.phase:
-            n = int(self.schedule.get(str(self.count), 0))
+            n = int(self.schedule.get(str(self.count), 0)) + int(self.every)
             if n:
                 idx = self.creator(n, {"age_start": 0, "age_end": 2, "sim_state": "time_step"})
                 self.actions.append([self.count, ev, "birth", [int(i) for i in idx]])
@@ -514,6 +518,41 @@ class ResidualUser(Component):
                           name="flavor"))
 
 
+class PrivateState(Component):
+    """Keeps per-simulant state OUTSIDE the state table, in plain attributes (a dict keyed by label and a Series), filled
+    ONLY in an initializer that creates no column (so the framework registers it as a column-less resource), and feeds it
+    back into the table at every step (adds it to BasePop's `dose`).  A simulant whose initializer call is lost - e.g.
+    because something about the registration does not survive a backup - gets NaN there."""
+
+    def __init__(self, scale=0.125):
+        super().__init__()
+        self.scale = scale
+        self.bonus = {}                          # label -> float
+        self.order = pd.Series(dtype=float)      # label -> order of arrival
+        self.calls = 0
+
+    @property
+    def columns_required(self):
+        return ["dose"]
+
+    def setup(self, builder):
+        self.stream = builder.randomness.get_stream("private_bonus")
+
+    def on_initialize_simulants(self, pop_data):
+        self.calls += 1
+        for i, label in enumerate(pop_data.index):
+            self.bonus[int(label)] = self.scale * (1 + (int(label) * 7 + self.calls) % 5)
+        self.order = pd.concat([self.order, pd.Series(float(self.calls), index=pop_data.index)])
+
+    def on_time_step_cleanup(self, event):
+        pop = self.population_view.get(event.index)
+        if len(pop):
+            bonus = pd.Series(self.bonus, dtype=float).reindex(pop.index)       # NaN for a simulant never initialised here
+            order = self.order.reindex(pop.index)
+            pop["dose"] = pop["dose"] + bonus + order / 1024.0
+            self.population_view.update(pop)
+
+
 class StepMod(Component):
     """Per-simulant step modifier: label l asks for (1 + (a*l + b*tick) mod c) minimum steps (NaT when p>0 and
     (l + tick) mod p == 0), tick = whole minimum steps since start.  Logs every call's values."""
@@ -614,7 +653,7 @@ def age_sum(df):
 
 KINDS = {"recorder": Recorder, "base_pop": BasePop, "births": Births, "pipes": Pipes, "mortality": Mortality,
          "tables": Tables, "risk": RiskEffect, "condition": Condition, "residual": ResidualUser, "stepmod": StepMod,
-         "snoozer": Snoozer, "obs": Obs}
+         "snoozer": Snoozer, "obs": Obs, "private": PrivateState}
 
 
 # =====================================================================================================================
@@ -1224,9 +1263,13 @@ def gen_program(rng, max_steps=8, force=None):
 
     if want("births", 0.6):
         sched = {}
-        for _ in range(rng.randint(1, 3)):
-            sched[str(rng.choice([0, 0, 1, 2, 3, n - 1, rng.randint(0, n)]))] = rng.choice([1, 2, 3, 5])
-        comps.append({"kind": "births", "schedule": sched, "phase": rng.choice([0, 1, 1, 1, 2, 3])})
+        every = 1 if ("births_every" in force or rng.random() < 0.4) else 0
+        for _ in range(1 if every else rng.randint(1, 3)):
+            sched[str(rng.choice([0, 0, 1, 2, 3, n - 1, rng.randint(0, n)]))] = rng.choice([1, 2, 3] if every else [1, 2, 3, 5])
+        # at most 15 births in all (n <= 12 steps x 1 + 3): see the CRN map-size remark below
+        comps.append({"kind": "births", "schedule": sched, "phase": rng.choice([0, 1, 1, 1, 2, 3]), "every": every})
+    if want("private", 0.4):
+        comps.append({"kind": "private", "scale": rng.choice([0.125, 0.5])})
     have_tables = want("tables", 0.6)
     def specials():
         """unusual-but-legal inputs real models produce: NaN (not at risk / exposure unknown), inf, zero, above the clip"""
